@@ -17,8 +17,12 @@ If(b, name) == IF b THEN {} ELSE {name}
 Fails(t) ==
   IF t.panic # "" THEN {"panic"}
   ELSE IF t.op = "New" THEN
+         \* pre = ConfReading of the option sequence (checked), judged on the first GetMeterReading (post) and on
+         \* the PullMeterReadings seed
          LET want == New(t.pre, t.now) IN
-         If(t.post.start.has /\ t.post.end.has, "start-and-end-recorded")
+         If(t.pre = ConfReading(t.opts), "spec-configuration-not-folded")
+         \cup If(t.seed = t.post, "pull-seed-is-first-read")
+         \cup If(t.post.start.has /\ t.post.end.has, "start-and-end-recorded")
          \cup If(t.post.usage = want.usage, "initial-usage-used")
          \cup If(~t.pre.start.has \/ t.post.start = want.start, "initial-start-time-used")
          \cup If(~t.pre.end.has \/ t.post.end = want.end, "initial-end-time-used")
